@@ -42,7 +42,8 @@ PROPS["C01"] = dict(
                 "UnexpectedEOF and a prefix of the output) are proved for the Gallina RFC 1951 decoder for all inputs. "
                 "That this decoder is what flate.Reader computes is checked by correspondence on every run (0 disagreements "
                 "required) and it is cross-checked against zlib and compress/flate; the table-lookup/window refinement "
-                "theorems are layered in Prefix/ and Window/ as they are completed."),
+                "theorems are layered in Prefix/ and Window/ as they are completed."
+                " Added: TOTALITY of the decoder model (Props flate_decoder_total): on every input success, UnexpectedEOF or Corrupted - no panic, no exhausted loop budget (Flate/Safe.v, Flate/Fuel.v)."),
     level_note=("Trusted: Coq kernel, extraction, OCaml driver, Go harness/generators, zlib + compress/flate as references. "
                 "The claim 'model = flate.Reader' is sampled, not proved."),
 )
@@ -130,7 +131,8 @@ PROPS["C09"] = dict(
                 "reported only after everything decoded was delivered, is sticky, and Close returns nil exactly after EOF; "
                 "for the RFC 1951 model every cut of an accepted stream gives exactly UnexpectedEOF with a prefix of the "
                 "output. For brotli/bzip2 the same locality theorem applies once their models are instantiated (eof-free "
-                "programs); error-class containment and verbatim source errors are decided by the implementation oracles."),
+                "programs); error-class containment and verbatim source errors are decided by the implementation oracles."
+                " Added: the error classes of the three decoder models are proved for every input (flate_error_classes, brotli_error_classes, bzip2_error_classes): only UnexpectedEOF, Corrupted (bzip2: or Deprecated)."),
     level_note="Trusted: Coq kernel, extraction, driver, Go harness, reference encoders. Model = code sampled.",
 )
 PROPS["C10"] = dict(
@@ -146,7 +148,8 @@ PROPS["C10"] = dict(
                 "delivered bytes are always a prefix of the one-shot output, a schedule that ends in an error has delivered "
                 "exactly the one-shot output and reports the one-shot outcome, zero-length reads lose nothing. Independence "
                 "from the source's shape rests on the bit-reader layer (Prefix/BitReader, in progress) and on the oracle runs "
-                "over 11 source kinds."),
+                "over 11 source kinds."
+                " Added for xflate.Reader: on an honest stream sequential reading with any sequence of buffer lengths (zero included) delivers the prefix of the content of the total length asked (xflate_sequential_reads_any_buffer_sizes, corollary of the C07 refinement)."),
     level_note="Trusted: as C09.",
 )
 PROPS["C11"] = dict(
@@ -184,7 +187,8 @@ PROPS["C03"] = dict(
                 "vectors); bzip2.Reader is tied to it byte for byte on every run and both to libbzip2. Proved: the generic "
                 "Read-wrapper theorems instantiated for this program (schedule independence, error = decoder outcome) and "
                 "concrete multi-stream / cut witnesses. The stage-equivalence theorems of DESIGN.md (RLE1, MTF/RLE2, BWT "
-                "inversion, degenerate trees) are not yet proved: that part is differential testing against libbzip2."),
+                "inversion, degenerate trees) are not yet proved: that part is differential testing against libbzip2."
+                " Added: TOTALITY of the bzip2 decoder model (Props bzip2_decoder_total; Bzip2/Safe.v): on every input success, UnexpectedEOF, Corrupted or Deprecated; no loop budget is exhausted (the code-length, block and stream loops consume input in every continuing iteration; the symbol loop is bounded by the block size)."),
     level_note="Trusted: Coq kernel, extraction, driver, harness, libbzip2 as reference. Model = code sampled.",
 )
 PROPS["C04"] = dict(
@@ -201,7 +205,8 @@ PROPS["C04"] = dict(
                 "rotations, MTF/RLE2, length-limited Huffman incl. the uint32 tree rotation, selectors, delta-coded lengths). "
                 "Proved so far: round trips through encoder and decoder models on concrete inputs (text, empty, long runs). "
                 "The universal round-trip theorem needs the stage inverses (RLE1, MTF/RLE2, Huffman, BWT inversion); until "
-                "they are proved the universal claim rests on the correspondence plus three independent decoders."),
+                "they are proved the universal claim rests on the correspondence plus three independent decoders."
+                " Added: stage 1 for EVERY input and block size (Bzip2/Rle1.v): the block stored by the Writer's run-length stage with its block-full rules expands, by the Reader's stage, to exactly the input consumed, CRC registers agree, the block fits, progress, the decoder never ends in the rejected four-bytes-no-count state; the block loop is a fold over these blocks and their expansions concatenate to the input. Stages 2-4 (BWT, MTF/RLE2, Huffman) are not proved."),
     level_note="Trusted: as C03; SA-IS (bzip2/internal/sais) is not modelled: the model sorts rotations, the BWT stage is compared with the code's output.",
 )
 
@@ -225,7 +230,8 @@ PROPS["C02"] = dict(
                 "every cut of an accepted stream yields exactly UnexpectedEOF with a prefix of the output; the RFC-derived "
                 "range/offset tables equal the implementation's (kernel-checked). That brotli.Reader computes this model is "
                 "checked by correspondence (0 disagreements required) and against libbrotli on every run; the LUT/window/"
-                "resumable-state refinement theorems of DESIGN.md are not proved."),
+                "resumable-state refinement theorems of DESIGN.md are not proved."
+                " Added: TOTALITY of the RFC 7932 decoder model for every dictionary and input (Props brotli_decoder_total; Brotli/Safe.v: last distances stay positive, so no window copy is out of range; Brotli/Fuel.v: every loop budget suffices - the command loop by the measure bytes-still-to-produce + input bits left, with the invariant that the last distances never exceed max 16 (min window bytes_produced), so a command that reads no bit cannot reference an empty dictionary word)."),
     level_note="Trusted: Coq kernel, extraction, driver, harness, libbrotli as reference. Model = code sampled.",
 )
 PROPS["C08"] = dict(
@@ -244,7 +250,8 @@ PROPS["C08"] = dict(
                 "whatever the declared count (the pre-repair loop is refuted: n records from an empty payload, for every n), "
                 "every VLI read consumes input, a Read never returns more than the buffer. Termination of the models is by "
                 "construction (structural recursion / bounded loops). Go runtime memory, stack and time are measured on "
-                "generated hostile inputs, not proved; 'no panic' for the real code is the oracle's observation."),
+                "generated hostile inputs, not proved; 'no panic' for the real code is the oracle's observation."
+                " Added: all three decoder models are TOTAL (flate_decoder_terminates_without_panic, brotli_decoder_terminates_without_panic, bzip2_decoder_terminates): every input ends in success or one of the permitted error classes, with the loop budgets the models themselves choose; what is proved is the logic - wall time and allocation of the Go code are measured by the harness."),
     level_note="Trusted: as C09; the Go runtime (allocator, GC, scheduler) is outside every model.",
 )
 PROPS["C12"] = dict(
@@ -261,7 +268,8 @@ PROPS["C12"] = dict(
                 "(all inputs); bytes delivered before a cut stay delivered when more input arrives (all eof-free decoder "
                 "programs, incl. the brotli and flate models); all 115 cuts of a real xflate.Writer output checked inside "
                 "the kernel. The xflate-open clause ('fails or serves the original') inherits the C15 weakness and is "
-                "decided by the oracle on generated histories only; bzip2 cuts: witness + oracle."),
+                "decided by the oracle on generated histories only; bzip2 cuts: witness + oracle."
+                " Added: xflate.Writer only appends - the sink after a prefix of the calls is a prefix of the sink after all of them, for every compressor behaviour (XFlate/Mono.v), so the output at the moment a Flush returned IS a cut of the final output."),
     level_note="Trusted: as C05.",
     trusted_extra=_XF_TRUST,
 )
@@ -279,7 +287,8 @@ PROPS["C13"] = dict(
                 "profile and every call history: a sink failure is reported by the call in progress, stays reported by every "
                 "later call, Close returns nil only if the sink never failed, OutputOffset = bytes the sink accepted, "
                 "InputOffset = bytes reported accepted; the pre-repair bzip2 Close is refuted by a machine-checked witness. "
-                "What each call emits is a parameter of the model (taken from the real encoder at run time)."),
+                "What each call emits is a parameter of the model (taken from the real encoder at run time)."
+                " Added: xflate.Writer's sink content before any call is a prefix of its content afterwards (XFlate/Mono.v), for every compressor behaviour and call sequence."),
     level_note="Trusted: as C09. The model abstracts the encoders to their sink-write sizes.",
 )
 PROPS["C14"] = dict(
@@ -329,7 +338,8 @@ PROPS["C17"] = dict(
     level_text=("Proved for the Reader model: a Seek appends at most one range to the I/O log and it is the compressed span of "
                 "one index record; refused seeks and zero-length reads touch nothing. The implementation's actual reads are "
                 "checked for inclusion in the model's log on every run. Total-cost bounds over whole request sequences are "
-                "by inclusion checking, not yet a theorem."),
+                "by inclusion checking, not yet a theorem."
+                " Added over all histories on honest streams (XFlate/Locality.v): a Seek reads at most the compressed extent of the one record whose raw range holds the (clamped) target; a Read of n bytes at logical position lp reads only extents of records after the current one that start strictly before lp+n (or the empty end-of-data extent); every access after opening is a record extent. The opening cost (footer + index blocks) is covered by the oracle and the I/O log comparison, not by a theorem."),
     level_note="Trusted: as C05; bufio's 4 KiB read-ahead inside xflate's flateReader is bounded by the LimitedReader (observed, not modelled).",
     trusted_extra=_XF_TRUST,
 )
